@@ -75,4 +75,24 @@ def search(res, tier, boost=False):
                     res.violation('C01:entry-inaccurate:%s' % ('exact-path' if pw else 'quadrature-path'),
                                   dict(curve=cname, pw_exact=pw, test=describe(te), trial=describe(tr), computed=float(v),
                                        reference=ref, scaled_error=err, aspect=[aspect(te), aspect(tr)]))
+        # the same entries as delivered by the assembled matrix, serial and worker-pool path (mat[i, j] = <V 1_trial_j, 1_test_i>)
+        if len(elems) >= 10 and (tier != 'quick' or mi == 0):
+            import contextlib
+            import io
+            lst = rng.sample(elems, min(len(elems), 12))
+            for use_mp in (False, True):
+                with contextlib.redirect_stdout(io.StringIO()):
+                    mat = ops.SL[False].bilform_matrix(lst, lst, use_mp=use_mp)
+                for _ in range(8 if tier == 'quick' else 30):
+                    i, j = rng.randrange(len(lst)), rng.randrange(len(lst))
+                    te, tr = lst[i], lst[j]
+                    acausal = te.time_interval[1] <= tr.time_interval[0]
+                    ref = 0.0 if acausal else ops.ref(te, tr)
+                    sc = ops.scale(te, tr)
+                    err = abs(mat[i, j] - ref) / sc
+                    res.count(('matrix-entry', cname, mi, use_mp, repr(te), repr(tr)), not acausal)
+                    if err > 1e-7:
+                        res.violation('C01:entry-inaccurate:matrix-%s' % ('pool-path' if use_mp else 'serial-path'),
+                                      dict(curve=cname, use_mp=use_mp, test=describe(te), trial=describe(tr), i=i, j=j,
+                                           computed=float(mat[i, j]), reference=ref, scaled_error=err))
     res.notes['worst_scaled_error'] = worst
